@@ -51,8 +51,9 @@ SHOWS = [[], ["rule", "info", "pass", "none", "metadata", "fingerprint"], ["rule
          ["metadata", "fingerprint"]]
 
 
-def sized_kwargs(base, extra, target):
-    """kwargs whose documented measure len(str(kwargs + type + key)) is exactly target."""
+def sized_kwargs(base, extra, target, ch="x"):
+    """kwargs whose documented measure len(str(kwargs + type + key)) is exactly target (characters,
+    not bytes: the padding may be non-ASCII)."""
     kw = dict(base)
     kw["pad"] = ""
     probe = dict(kw)
@@ -60,7 +61,7 @@ def sized_kwargs(base, extra, target):
     n = target - len(str(probe))
     if n < 0:
         raise RuntimeError("target too small for payload")
-    kw["pad"] = "x" * n
+    kw["pad"] = ch * n
     probe = dict(kw)
     probe.update(extra)
     assert len(str(probe)) == target, (len(str(probe)), target)
@@ -116,7 +117,7 @@ class RuleSet(object):
             if target is None:
                 return base
             t = {"fail": "rule"}.get(kind, kind)
-            return sized_kwargs(base, {"type": t, KEYNAME[kind]: K}, target)
+            return sized_kwargs(base, {"type": t, KEYNAME[kind]: K}, target, "x" if i % 2 else u"\u00e9")
 
         def body(*args):
             if ret in CLS:
@@ -178,7 +179,10 @@ class RuleSet(object):
         deps = {"met": [self.present], "missing": [self.absent1],
                 "missing-group": [self.present, [self.absent1, self.absent2]],
                 "missing-both": [self.present, self.absent3, [self.absent1, self.absent2], [self.present, self.absent2]]}[r["dep"]]
-        plugins.rule(*deps, tags=["t%d" % i, "common"], links={"kcs": ["https://example.test/%d" % i]})(body)
+        # a content template: none, one that renders, one that jinja2 cannot compile
+        content = [None, "rule {{rid}} says {{pad}}", "{% if %}broken", {"KEY_1": "by key {{rid}}"}][(i + r["key"]) % 4]
+        plugins.rule(*deps, tags=["t%d" % i, "common"], links={"kcs": ["https://example.test/%d" % i]},
+                     content=content)(body)
         if not r["enabled"]:
             dr.set_enabled(body, False)
         self.rules[i] = body
@@ -317,7 +321,8 @@ def run_case(case, which, limit, nonce):
         elif which == "insights":
             ev = InsightsEvaluator(broker, system_id="sys-1", stream=stream)
         elif which == "json":
-            ev = JsonFormat(broker, missing=missing, show_rules=show, stream=stream)
+            ev = JsonFormat(broker, missing=missing, show_rules=show, stream=stream,
+                            render_content=bool((nonce // 2) % 2))
         else:
             ev = YamlFormat(broker, missing=missing, show_rules=show, stream=stream)
 
